@@ -24,6 +24,8 @@ func TestVerifC16All(t *testing.T) {
 		Hbb  []int          `json:"hbb"`
 		Mw   []mwCase       `json:"mw"`
 		Mws  []mwStressCase `json:"mws"`
+		Mr   []mrCase       `json:"mr"`
+		Mrs  []mrStressCase `json:"mrs"`
 	}
 	if err := json.Unmarshal(raw, &in); err != nil {
 		t.Fatal(err)
@@ -84,6 +86,20 @@ func TestVerifC16All(t *testing.T) {
 			r[i] = runMwStress(c)
 		}
 		out["mws"] = r
+	}
+	if in.Mr != nil {
+		r := make([]mrRes, len(in.Mr))
+		for i, c := range in.Mr {
+			r[i] = runMrCase(c)
+		}
+		out["mr"] = r
+	}
+	if in.Mrs != nil {
+		r := make([]mrStressRes, len(in.Mrs))
+		for i, c := range in.Mrs {
+			r[i] = runMrStress(c)
+		}
+		out["mrs"] = r
 	}
 	if in.Hbb != nil {
 		out["hbb"] = []hbbRes{runHbBypass(20, 150)}
